@@ -140,6 +140,15 @@ BinderShapes(u) == {
   "local x = 2 local function h() local x = " \o u \o " return x end ext1(h())",
   "local x = 2 local function h(y) local x, y = y, " \o u \o " return x, y end ext1(h(5))" }
 SelfShapes == {
+  \* a local mentioned ONLY as the root of a function STATEMENT name (`function g()`, `function M.f()`, `function C:m()`), inside the
+  \* function value of the next declaration / inside its own body: a use like any other for the rules that merge or convert
+  "local function g() ext1(1) function g() return ext1(2) end return 0 end ext1(g()) ext1(g())",
+  "local g local function h() function g() return ext1(2) end end h() ext1(g())",
+  "local M = {} local install = function() function M.helper() return ext1(1) end end install() ext1(M.helper())",
+  "local M = {} local k = ext1(3) local install = function() function M.helper() return k end end install() ext1(M.helper())",
+  "local C = {} local function define() function C:new() return ext1(self == C) end end define() ext1(C:new())",
+  "local C = {v = 1} local D = {} local function define() function C.sub() return D end end define() ext1(C.sub() == D)",
+  "local a = 1 local g = function() function a() return ext1(4) end end g() ext1(a())",
   "local x = 2 local function x(n) if n then return 1 end return x(true) end ext1(x())",
   "local x = function() return 5 end local x = function() return x() + 1 end ext1(x())",
   "local o = {v = 1} function o:get(self) return self end ext1(o:get(5))",
